@@ -90,6 +90,7 @@ type admission struct {
 }
 
 type scen struct {
+	lru       []int // F4: reference LRU order of the values (most recent first)
 	prefixBad string
 	cfg       Config
 	ops       []opDef
@@ -132,6 +133,7 @@ func (s *scen) Reset() {
 	s.adm = map[int][]admission{}
 	s.firstSeen = map[int]int64{}
 	s.lastReq = map[int]int64{}
+	s.lru = s.lru[:0]
 	rules := []*hotspot.Rule{s.mkRule("shared")}
 	for i := range values {
 		rules = append(rules, s.mkRule(fmt.Sprintf("only%d", i)))
@@ -278,11 +280,30 @@ func (s *scen) apply(i int) (string, string) {
 	}
 	s.lastReq[o.val] = arrival
 	if s.cfg.Family == "F4" {
-		// below capacity only per-request bounds hold
+		// More live values than the configured capacity: the per-value state lives in a least-
+		// recently-used cache, so a value keeps its state exactly as long as fewer than `capacity`
+		// OTHER values were used since its last request. The reference tracks that order; a value
+		// that fell out starts afresh (its history is forgotten), everything else is judged as usual.
+		pos := -1
+		for i, x := range s.lru {
+			if x == o.val {
+				pos = i
+			}
+		}
+		if pos >= 0 {
+			s.lru = append(s.lru[:pos], s.lru[pos+1:]...)
+		} else {
+			delete(s.adm, o.val)
+			s.firstSeen[o.val] = arrival
+			idleFor = -1
+		}
+		s.lru = append([]int{o.val}, s.lru...)
+		if int64(len(s.lru)) > s.cfg.Capacity {
+			s.lru = s.lru[:s.cfg.Capacity]
+		}
 		if a.pass && !s.cfg.Throttle && int64(o.batch) > T+s.cfg.Burst {
 			return obs, fmt.Sprintf("%v admitted although the batch exceeds threshold+burst", o)
 		}
-		return obs, ""
 	}
 	if s.cfg.Throttle {
 		if a.pass {
@@ -349,6 +370,7 @@ func (s *scen) apply(i int) (string, string) {
 
 func (s *scen) Key() string {
 	var b strings.Builder
+	fmt.Fprintf(&b, "lru%v|", s.lru)
 	ress := []string{"shared"}
 	for v := range values {
 		if _, ok := s.firstSeen[v]; ok && s.cfg.Family != "F4" {
